@@ -4,13 +4,18 @@ import os, subprocess, shutil
 from . import common, ref, delta, server
 
 
-def run_zckdl(bd, cwd, url, src=None, kill=None, timeout=60):
+def run_zckdl(bd, cwd, url, src=None, kill=None, timeout=60, fault=None, trace=None, extra=()):
+    """fault: list of (kind, role, nth, action) with role tgt (the target) or src (the local source)"""
     env = dict(os.environ)
     name = os.path.basename(url)
-    env["ZV_ROLES"] = "tgt=%s" % name
+    env["ZV_ROLES"] = "tgt=%s" % name + (";src=%s" % src if src else "")
     if kill:
         env["ZV_KILL"] = "tgt:%d:%d" % kill
-    args = [os.path.join(bd, "zckdl")] + (["-s", src] if src else []) + [url]
+    if fault:
+        env["ZV_FAULT"] = ";".join("%s:%s:%d:%d" % f for f in fault)
+    if trace:
+        env["ZV_TRACE"] = trace
+    args = [os.path.join(bd, "zckdl")] + list(extra) + (["-s", src] if src else []) + [url]
     try:
         p = subprocess.run(args, cwd=cwd, env=env, stdout=subprocess.PIPE, stderr=subprocess.PIPE, timeout=timeout)
         return p.returncode
@@ -18,7 +23,7 @@ def run_zckdl(bd, cwd, url, src=None, kill=None, timeout=60):
         return "Hang"
 
 
-def tool_event(B, h, A, before, after, ranges, status):
+def tool_event(B, h, A, before, after, ranges, status, full=False):
     """one zckdl run -> a `toolrun` event with facts"""
     n = len(h.entries)
     ext = delta.extents(h)
@@ -41,4 +46,4 @@ def tool_event(B, h, A, before, after, ranges, status):
             break
     # all chunks right but the whole-data checksum wrong does not occur here (B is genuine)
     return {"op": "toolrun", "status": status if isinstance(status, int) else 98, "eqB": after == B, "X": sorted(c + 1 for c in X), "wholeChunks": whole,
-            "disk": d0, "usable": usable, "sized": sized, "n": n}
+            "disk": d0, "usable": usable, "sized": sized, "n": n, "full": bool(full)}
